@@ -9,6 +9,7 @@ import (
 	"encoding/binary"
 	"fmt"
 	"strings"
+	"sync"
 
 	"github.com/restic/restic/internal/repository/index"
 	"github.com/restic/restic/internal/restic"
@@ -65,7 +66,70 @@ func c56Chunks(items []string, sz int) string {
 	return coqList(chunks)
 }
 
-func c56Observe(m *index.VerifC56Map, ops []c56Op, keys []uint64, withIter bool) (term string, panicked bool) {
+// c56KeyObs: valuesWithID / get / firstIndex of one key as a kobs term (None = the call panicked)
+func c56KeyObs(m *index.VerifC56Map, k uint64) string {
+	id := c56ID(k)
+	valsT, getT, firstT := "None", "None", "None"
+	func() {
+		defer func() { _ = recover() }()
+		vs := m.ValuesWithID(id)
+		items := make([]string, len(vs))
+		for j, e := range vs {
+			items[j] = c56Val([4]uint32{e.PackIndex, e.Offset, e.Length, e.UncompressedLength})
+		}
+		valsT = "(Some " + coqList(items) + ")"
+	}()
+	func() {
+		defer func() { _ = recover() }()
+		e, ok := m.Get(id)
+		getT = "(Some " + coqOpt(ok, c56Val([4]uint32{e.PackIndex, e.Offset, e.Length, e.UncompressedLength})) + ")"
+	}()
+	func() {
+		defer func() { _ = recover() }()
+		firstT = "(Some " + coqZ(int64(m.FirstIndex(id))) + ")"
+	}()
+	return fmt.Sprintf("mkK %d%%N %s %s %s", k, valsT, getT, firstT)
+}
+
+// c56Concurrent: 8 goroutines look up all keys repeatedly on the (now read-only) map. Every
+// observation is a real one; to keep the term small only observations that differ from the
+// sequential one (at most 4 per goroutine) plus one ordinary observation per goroutine are emitted.
+func c56Concurrent(m *index.VerifC56Map, keys []uint64) []string {
+	expect := make(map[uint64]string, len(keys))
+	for _, k := range keys {
+		expect[k] = c56KeyObs(m, k)
+	}
+	var mu sync.Mutex
+	var out []string
+	var wg sync.WaitGroup
+	for g := 0; g < 8; g++ {
+		wg.Add(1)
+		go func(g int) {
+			defer wg.Done()
+			var mine []string
+			diff := 0
+			for round := 0; round < 40 && diff < 4; round++ {
+				for i := range keys {
+					k := keys[(i+g*7)%len(keys)]
+					t := c56KeyObs(m, k)
+					if t != expect[k] && diff < 4 {
+						diff++
+						mine = append(mine, t)
+					} else if round == 0 && i == g {
+						mine = append(mine, t)
+					}
+				}
+			}
+			mu.Lock()
+			out = append(out, mine...)
+			mu.Unlock()
+		}(g)
+	}
+	wg.Wait()
+	return out
+}
+
+func c56Observe(m *index.VerifC56Map, ops []c56Op, keys []uint64, withIter bool, concKeys []uint64) (term string, panicked bool) {
 	opTerms := make([]string, len(ops))
 	func() {
 		defer func() {
@@ -113,27 +177,10 @@ func c56Observe(m *index.VerifC56Map, ops []c56Op, keys []uint64, withIter bool)
 	}()
 	kts := make([]string, len(keys))
 	for i, k := range keys {
-		id := c56ID(k)
-		valsT, getT, firstT := "None", "None", "None"
-		func() {
-			defer func() { _ = recover() }()
-			vs := m.ValuesWithID(id)
-			items := make([]string, len(vs))
-			for j, e := range vs {
-				items[j] = c56Val([4]uint32{e.PackIndex, e.Offset, e.Length, e.UncompressedLength})
-			}
-			valsT = "(Some " + coqList(items) + ")"
-		}()
-		func() {
-			defer func() { _ = recover() }()
-			e, ok := m.Get(id)
-			getT = "(Some " + coqOpt(ok, c56Val([4]uint32{e.PackIndex, e.Offset, e.Length, e.UncompressedLength})) + ")"
-		}()
-		func() {
-			defer func() { _ = recover() }()
-			firstT = "(Some " + coqZ(int64(m.FirstIndex(id))) + ")"
-		}()
-		kts[i] = fmt.Sprintf("mkK %d%%N %s %s %s", k, valsT, getT, firstT)
+		kts[i] = c56KeyObs(m, k)
+	}
+	if len(concKeys) > 0 {
+		kts = append(kts, c56Concurrent(m, concKeys)...)
 	}
 	return fmt.Sprintf("mkC %s false %d%%N %s %s", opsT, ln, iterT, coqList(kts)), false
 }
@@ -156,6 +203,8 @@ func c56Script(rng *vrng, mode string, n int) []c56Op {
 			return fresh<<8 | fb
 		case "onebyte": // identical first byte
 			return fresh<<8 | cls
+		case "signbit": // fillers whose bloom bit is bit 63 of the link word (id[0]%28 == 27)
+			return fresh<<8 | (27 + 28*uint64(rng.intn(9)))
 		case "twoclass":
 			return fresh<<8 | (cls+uint64(rng.intn(2))*13)%28
 		default:
@@ -166,11 +215,29 @@ func c56Script(rng *vrng, mode string, n int) []c56Op {
 	if mode == "dupheavy" {
 		dupPct = 85
 	}
+	if mode == "signbit" {
+		dupPct = 0
+	}
 	prePct := 3
 	if mode == "prealloc" {
 		prePct = 12
 	}
+	var anchors []uint64
+	if mode == "signbit" { // keys with another bloom class, re-added later behind class-27 fillers
+		for i := 0; i < 8 && len(ops) < n; i++ {
+			k := uint64(100+i)<<8 | uint64(1+i)
+			anchors = append(anchors, k)
+			used = append(used, k)
+			counter++
+			ops = append(ops, c56Op{k: k, v: [4]uint32{uint32(rng.intn(6)), counter, 1, 1}})
+		}
+	}
 	for len(ops) < n {
+		if len(anchors) > 0 && rng.chance(20) {
+			counter++
+			ops = append(ops, c56Op{k: anchors[rng.intn(len(anchors))], v: [4]uint32{uint32(rng.intn(6)), counter, 2, 2}})
+			continue
+		}
 		if rng.chance(prePct) {
 			var pn int
 			switch rng.intn(6) {
@@ -268,7 +335,18 @@ func c56Run(c *vctx, rng *vrng, mode string, ops []c56Op, nck int, withModel boo
 			}
 			keys = append(keys, k)
 		}
-		t, p := c56Observe(m, seg, keys, pos == len(ops) || pos == iterAt)
+		var concKeys []uint64
+		if pos == len(ops) && len(inserted) >= 30 { // concurrent readers on the finished map
+			dist := map[uint64]bool{}
+			for _, k := range inserted {
+				if !dist[k] && len(concKeys) < 120 {
+					dist[k] = true
+					concKeys = append(concKeys, k)
+				}
+			}
+			concKeys = append(concKeys, keys[len(keys)-4:]...) // and the absent ones
+		}
+		t, p := c56Observe(m, seg, keys, pos == len(ops) || pos == iterAt, concKeys)
 		panicked = p
 		ckpts = append(ckpts, t)
 	}
@@ -296,9 +374,9 @@ func c56Run(c *vctx, rng *vrng, mode string, ops []c56Op, nck int, withModel boo
 func engineC56(c *vctx) error {
 	c.Header("Model.C56m", "C56m.case", "C56m.check_case")
 	c.Preamble("Import C56m.")
-	modes := []string{"random", "oneclass", "onebyte", "twoclass", "dupheavy", "prealloc"}
+	modes := []string{"random", "signbit", "oneclass", "dupheavy", "prealloc", "onebyte", "twoclass"}
 	// corpus: boundary sizes of the bucket table (64*4 = 256 entries) and of the HAT (16, 64, 256 slots)
-	for i, n := range []int{0, 1, 15, 16, 17, 64, 65, 256, 257, 258} {
+	for i, n := range []int{0, 1, 15, 16, 17, 64, 256, 257} {
 		rng := c.rng.fork()
 		mode := []string{"random", "dupheavy"}[i%2]
 		ops := c56Script(rng, mode, n)
@@ -310,10 +388,15 @@ func engineC56(c *vctx) error {
 	// preallocate first, then fill beyond it
 	for _, pn := range []int{1, 257} {
 		rng := c.rng.fork()
-		ops := append([]c56Op{{pre: true, n: pn}}, c56Script(rng, "random", 100+pn/2)...)
+		ops := append([]c56Op{{pre: true, n: pn}}, c56Script(rng, "random", 60+pn/2)...)
 		c56Run(c, rng, "prealloc-corpus", ops, 3, true)
 	}
-	rounds := c.n(12, 150)
+	// anchors re-added behind bloom-bit-63 fillers in the same bucket
+	for _, n := range []int{150, 300} {
+		rng := c.rng.fork()
+		c56Run(c, rng, "signbit-corpus", c56Script(rng, "signbit", n), 3, true)
+	}
+	rounds := c.n(7, 150)
 	for r := 0; r < rounds; r++ {
 		rng := c.rng.fork()
 		mode := modes[r%len(modes)]
@@ -322,11 +405,11 @@ func engineC56(c *vctx) error {
 		case 0:
 			n = rng.intn(40)
 		case 1, 2:
-			n = 40 + rng.intn(160)
+			n = 40 + rng.intn(120)
 		case 3:
-			n = 200 + rng.intn(150)
+			n = 160 + rng.intn(120)
 		default:
-			n = 250 + rng.intn(c.n(330, 1500))
+			n = 250 + rng.intn(c.n(120, 1500))
 		}
 		c56Run(c, rng, mode, c56Script(rng, mode, n), 2+rng.intn(3), true)
 	}
